@@ -1,4 +1,5 @@
 import Pm.Sort2
+import Pm.Cbuf
 /- spike: Dev.lean extended with the connection layer of device.c / device_tcp.c (one tcp device):
    `_enqueue_targeted_actions`, `_process_action` and every `_process_*`, with the regex engine
    as an oracle.  Written for execution (compared with the real code), not yet for proof. -/
@@ -98,6 +99,7 @@ structure Dev where
   cpid : Option Nat := none
   pingPeriod : Time := 0                 -- 0 = none
   lastPing : Option Time := none         -- none = never (timerclear: the epoch)
+  fromSize : Nat := 1024                 -- dev->from->size: MIN_DEV_BUF at dev_create, grows up to MAX_DEV_BUF, never shrinks, survives reconnects
 
 inductive Out where
   | sent (b : Bytes)
@@ -148,8 +150,10 @@ def hsprintf : Bytes → Option Bytes → Bytes
   | 37 :: 115 :: r, none => str "(null)" ++ hsprintf r none
   | c :: r, a => c :: hsprintf r a
 
+/-- `xregex_match_sub_strdup`: `NULL` when nothing was matched yet (`!xm_used`; no longer an assert), when the last match
+    failed, when the index is out of range or the group is unset -/
 def subOf (d : Dev) (i : Int) : Option Bytes :=
-  if !d.xmResult || i < 0 then none else
+  if !d.xmUsed || !d.xmResult || i < 0 then none else
   match d.xmOffs[i.toNat]? with
   | some (so, eo) => if so == -1 then none else
       (d.xmStr.map fun s => (s.drop so.toNat).take (eo - so).toNat)
@@ -261,7 +265,6 @@ def stmtDelay (d : Dev) (a : Action) (o : Oracle) (e : ExecCtx) (now : Time) (us
 
 /-- `_process_setplugstate` -/
 def stmtSetplugstate (d : Dev) (a : Action) (o : Oracle) (e : ExecCtx) (lit : Option Bytes) (plugMp statMp : Int) (interps : List (PState × Nat)) : StepR :=
-  if !d.xmUsed then ⟨d, a, o, [.abortAssert "xm_used"], true⟩ else
   let plugName : Option Bytes := match lit with
     | some n => some n
     | none => match subOf d plugMp with
@@ -283,7 +286,6 @@ def stmtSetplugstate (d : Dev) (a : Action) (o : Oracle) (e : ExecCtx) (lit : Op
 
 /-- `_process_setresult` -/
 def stmtSetresult (d : Dev) (a : Action) (o : Oracle) (plugMp statMp : Int) (interps : List (PResult × Nat)) : StepR :=
-  if !d.xmUsed then ⟨d, a, o, [.abortAssert "xm_used"], true⟩ else
   match subOf d plugMp with
   | none => ⟨d, a, o, [], true⟩
   | some pn =>
@@ -357,6 +359,7 @@ structure Env where
   writeOk : Bool
   pairs : List Nat := []               -- first descriptor of each socketpair()
   pids : List Nat := []                -- fork() results
+  wcap : Nat := 1 <<< 30               -- bytes the descriptor takes in this pass when `writeOk` (0: EAGAIN)
 
 inductive Sys where
   | socket (fd : Nat) | connect (ans : Nat) | soerror (e : Nat) | close (fd : Nat)
@@ -487,6 +490,24 @@ def telnetFilter (d : Dev) (new : Bytes) : Dev :=
       (st', cmd', kept ++ k, reply ++ r)) (d.tstate, d.tcmd, [], [])
   { d with tstate := st, tcmd := cmd, fromBuf := d.fromBuf ++ kept, toBuf := d.toBuf ++ reply }
 
+/-- `MAX_DEV_BUF` -/
+def devBufMax : Nat := 65536
+
+/-- what `cbuf_write_from_fd(dev->from, dev->fd, -1, &dropped)` decides before any byte lands (`Pm.Cbuf.readPlan`):
+    `(n, size', dropped)` for what the kernel has (nothing on an error) -/
+def devReadPlan (d : Dev) (r : Option Bytes) : Nat × Nat × Nat :=
+  Pm.Cbuf.readPlan d.fromSize d.fromBuf.length devBufMax (match r with | some bs => bs.length | none => 0)
+
+/-- the capacity half of `_handle_read`: the buffer is grown if it is full (also when the `read` then fails), the kernel's
+    answer is cut to the `n` bytes asked for, and the `dropped` oldest unread bytes give way (only a full buffer at
+    `MAX_DEV_BUF` overwrites).  What the rest of `_handle_ready_device` sees as "the bytes read" is the clipped answer. -/
+def clipRead (c : CS) : CS :=
+  match c.env.read with
+  | some r =>
+    { c with env := { c.env with read := some (r.map fun bs => bs.take (devReadPlan c.dev r).1) },
+             dev := { c.dev with fromSize := (devReadPlan c.dev r).2.1, fromBuf := c.dev.fromBuf.drop (devReadPlan c.dev r).2.2 } }
+  | none => c
+
 /-- `_handle_ready_device`: returns ioerr -/
 def handleReady (c : CS) : CS × Bool :=
   let f := c.env.revents
@@ -507,12 +528,16 @@ def handleReady (c : CS) : CS × Bool :=
         else (c, false, true)
       else
         if c.dev.toBuf.isEmpty then (c, true, false)        -- cbuf_read_to_fd with nothing to write returns 0 → "write sent no data" → ioerr
-        else if c.env.writeOk then ({ c with sys := c.sys ++ [.write c.dev.toBuf true], dev := { c.dev with toBuf := [] } }, false, false)
+        else if c.env.writeOk then
+          -- `cbuf_read_to_fd(dev->to, fd, -1)`: the kernel takes `wcap` bytes, the rest stays queued; EAGAIN is an error
+          if c.env.wcap == 0 then ({ c with sys := c.sys ++ [.write [] true] }, true, false)
+          else ({ c with sys := c.sys ++ [.write (c.dev.toBuf.take c.env.wcap) true], dev := { c.dev with toBuf := c.dev.toBuf.drop c.env.wcap } }, false, false)
         else ({ c with sys := c.sys ++ [.write c.dev.toBuf false] }, true, false)
     else (c, false, false)
   if ioerr then (c, true) else
   if skipRead then (c, false) else
   if f &&& 1 != 0 then
+    let c := clipRead c
     match c.env.read with
     | some (some bs) =>
       if bs.isEmpty then ({ c with sys := c.sys ++ [.read 0] }, true)
